@@ -899,6 +899,22 @@ theorem t3_rd_attr_bridge (b0 b1 b2 b3 b4 b5 b6 b7 b8 b9 b10 b11 b12 b13 b14 b15
   simp only [Int.toNat_natCast, ne_eq, Int.natCast_inj, decide_not, Bool.not_eq_true', decide_eq_false_iff_not]
 
 
+/-- an attribute block that `read_from_ndef_service` could not verify (`None`): `_read_attribute_data` gives no attributes -/
+theorem t3_rd_attr_none_bridge (d : Option Bytes) : Gen.Fn.t3_rd_attr_none d = d.isNone := by
+  unfold Gen.Fn.t3_rd_attr_none; cases d <;> simp
+
+/-- one round of the block loop of `_read_ndef_data`: a `None` from `read_from_ndef_service` ends the read with no data,
+otherwise the answer is appended (`T3.readLoop` / `Adv.blockLoop3`: `acc ++ d`) -/
+theorem t3_rd_block_step_bridge (data : Bytes) (bd : Option Bytes) :
+    Gen.Fn.t3_rd_block_step data bd = bd.map fun b => data ++ b := by
+  unfold Gen.Fn.t3_rd_block_step; cases bd <;> rfl
+
+/-- no data survives a `None`, whatever was read before -/
+theorem gen_rd_block_none (data : Bytes) : Gen.Fn.t3_rd_block_step data none = none := by
+  rw [t3_rd_block_step_bridge]; rfl
+
+example : Gen.Fn.t3_rd_block_step [1, 2] (some [3]) = some [1, 2, 3] := by decide
+
 /-- a block shorter than 16 octets: `struct.error` like `T3.decodeAttr` -/
 theorem t3_rd_csum_short (d : Bytes) (h : d.length < 16) : Gen.Fn.t3_rd_csum d = .error .struct := by
   unfold Gen.Fn.t3_rd_csum
